@@ -239,8 +239,16 @@ func c06Exec(c fw.Case) *fw.Result {
 				}
 			}
 		}
+		// the damage meets other circumstances too: a third of the data-block damages sit in a
+		// header-less (resumed) stream, and the input comes through readers of different habits
+		if pos >= 0 && (c.Seed>>9)%3 == 0 {
+			f.Header = nil
+		}
 		dmg := map[int]pbfw.Damage{pos: {Kind: cl.name, Arg: c.Int("arg")}}
 		data, _ := f.Encode(dmg)
+		drd := mon.NewReader(data)
+		drd.Chunk = []int{0, 0, 7, 4096, 64}[(c.Seed>>11)%5]
+		drd.EagerEOF = (c.Seed>>14)%2 == 1
 		procs := int(c.Int("procs"))
 		nIntact := pos
 		if pos < 0 {
@@ -249,7 +257,7 @@ func c06Exec(c fw.Case) *fw.Result {
 		want := c06PrefixExpect(f, nIntact)
 		posName := []string{"header", "first", "middle", "last"}[map[int]int{-1: 0, 0: 1, 1: 2, 2: 2, 3: 3}[pos]]
 		key := fmt.Sprintf("C06/damage/%s/%s", cl.name, posName)
-		sr := pbfScan(mon.NewReader(data), procs, pos < 0 && c.Int("askheader") == 1, nil, nil)
+		sr := pbfScan(drd, procs, pos < 0 && c.Int("askheader") == 1, nil, nil)
 		res.Event(int64(len(sr.Objs)) + 1)
 		// the intact prefix must be delivered exactly; nothing of later blocks, nothing invented
 		n := len(want)
@@ -558,7 +566,7 @@ func init() {
 	fw.Register(&fw.Prop{
 		ID:    "C06",
 		Level: "fault_enumeration",
-		Rule: "(a) every byte offset 0..len of small generated files (3-6 blocks) as a cut point, with 1 and 3 decoders, each cut read once from a reader that reports io.EOF by an empty Read and once from one that returns it together with the last bytes; (b) 46 damage classes (size fields, raw_size off by one and far off: 0, negative, around the int32 wrap of size+10%, int32 max, deflate stream, adler, blob encoding, block type, required feature, missing/short/long columns, out-of-range string indexes in 9 places, plain node group, garbage at three levels) x block position {header, first, middle, last} x decoders; (c) a non-EOF I/O error (five flavours: plain, wrapping io.EOF, io.ErrUnexpectedEOF, wrapping context.Canceled, io.ErrClosedPipe) injected at every Read call index; (d) random damage inside the protobuf payload of one block with intact framing (bit flips, truncation, over-long prefixes, endless varints): no crash, no hang, neighbours exact. Each case runs in a child process so that a crash or hang is an observation of that case. " +
+		Rule: "(a) every byte offset 0..len of small generated files (3-6 blocks) as a cut point, with 1 and 3 decoders, each cut read once from a reader that reports io.EOF by an empty Read and once from one that returns it together with the last bytes; (b) 46 damage classes (size fields, raw_size off by one and far off: 0, negative, around the int32 wrap of size+10%, int32 max, deflate stream, adler, blob encoding, block type, required feature, missing/short/long columns, out-of-range string indexes in 9 places, plain node group, garbage at three levels) x block position {header, first, middle, last} x decoders, a third of the data-block damages in header-less streams, the input served whole, in 7 / 64 / 4096-byte reads, with or without the last bytes arriving together with io.EOF; (c) a non-EOF I/O error (five flavours: plain, wrapping io.EOF, io.ErrUnexpectedEOF, wrapping context.Canceled, io.ErrClosedPipe) injected at every Read call index; (d) random damage inside the protobuf payload of one block with intact framing (bit flips, truncation, over-long prefixes, endless varints): no crash, no hang, neighbours exact. Each case runs in a child process so that a crash or hang is an observation of that case. " +
 			"Signature = cut-position class (in/after size prefix, in/after BlobHeader, in Blob, boundary; header or data block), or (damage class, position), or (chunk size, decoders) for I/O faults.",
 		Assumptions: []string{
 			"a cut at offset 0, after the header block or after any data block is a block boundary (success); anything else must end in a non-nil error",
